@@ -162,7 +162,8 @@ def run_case(cs):
         mt, side = _instant(rng, zone, rng.choice([year, year - 1, 2015]))
         if rng.random() < 0.08:
             # zeroed / clamped time stamps as archives and some cameras produce them
-            mt, side = rng.choice([0, 0, 1, -1, 86399, 2**31 - 1, 2**31, 4102444800, 315532800]), "special"
+            # (incl. dates before 1970: summer 1969, winter 1965, summer 1968 - the zone's offset then is not the one of 1 Jan 1970)
+            mt, side = rng.choice([0, 0, 1, -1, 86399, 2**31 - 1, 2**31, 4102444800, 315532800, -15000000, -157000000, -47000000, -63000000]), "special"
             cs.count("special_mtimes")
         os.utime(os.path.join(root, rel), (mt, mt))
         files[rel] = (len(data), mt, side)
